@@ -38,19 +38,25 @@ fn mirrored(session_key: &[u8; 16]) -> Box<dyn GenericSecurityService> {
 }
 
 /// obtain the client's context through a real NTLM handshake; the reference recovers the session key from the token
-fn via_handshake(seed: u64) -> Result<(Box<dyn GenericSecurityService>, [u8; 16]), String> {
+fn via_handshake(seed: u64, rounds: usize) -> Result<(Box<dyn GenericSecurityService>, [u8; 16]), String> {
     let mut r = Rng::derive(seed, "C16-hs", 0, 0);
     let (d, u, p) = (client::ascii_name(&mut r, 8), client::ascii_name(&mut r, 8), client::ascii_name(&mut r, 12));
     let account = Account { domain: d.clone(), user: u.clone(), nt_hash: ntlm::nt_hash(&p) };
-    let mut sc = [0u8; 8];
-    sc.copy_from_slice(&r.bytes(8));
-    let ti = ntlm::av_pairs(&[(2, r.bytes(8)), (7, r.bytes(8))]);
-    let chal = ntlm::build_challenge(0xE28A8235, &sc, b"", &ti);
     let mut n = Ntlm::new(d, u, p);
-    let neg = n.create_negotiate_message().map_err(|e| client::err_kind(&e))?;
-    let auth = n.read_challenge_message(&chal).map_err(|e| client::err_kind(&e))?;
-    let a = ntlm::verify_authenticate(&neg, &chal, &auth, &sc, 0xE28A8235, &ti, &account)?;
-    Ok((n.build_security_interface(), a.exported_session_key))
+    // the application may authenticate several times with one context (reconnection): the security interface built
+    // after the last handshake must be keyed by the last session
+    let mut last = None;
+    for _ in 0..rounds.max(1) {
+        let mut sc = [0u8; 8];
+        sc.copy_from_slice(&r.bytes(8));
+        let ti = ntlm::av_pairs(&[(2, r.bytes(8)), (7, r.bytes(8))]);
+        let chal = ntlm::build_challenge(0xE28A8235, &sc, b"", &ti);
+        let neg = n.create_negotiate_message().map_err(|e| client::err_kind(&e))?;
+        let auth = n.read_challenge_message(&chal).map_err(|e| client::err_kind(&e))?;
+        let a = ntlm::verify_authenticate(&neg, &chal, &auth, &sc, 0xE28A8235, &ti, &account)?;
+        last = Some((n.build_security_interface(), a.exported_session_key));
+    }
+    last.ok_or_else(|| "no handshake".to_string())
 }
 
 pub fn make_case(class: u64, idx: u64, seed: u64) -> Case {
@@ -133,7 +139,7 @@ pub fn check_case(c: &Case, rep: &mut Report) {
     let desc = json!({"gen": c.gen, "handshake": c.handshake, "ops": format!("{:?}", c.ops)});
     let mut key = [0u8; 16];
     key.copy_from_slice(&Rng::new(c.key_seed).bytes(16));
-    let built = mon::guarded(|| if c.handshake { via_handshake(c.key_seed) } else { Ok((mirrored(&key), key)) });
+    let built = mon::guarded(|| if c.handshake { via_handshake(c.key_seed, 1 + (c.gen[1] % 3) as usize) } else { Ok((mirrored(&key), key)) });
     let (mut ctx, session_key) = match built {
         Ok(Ok(x)) => x,
         Ok(Err(e)) => {
